@@ -37,6 +37,11 @@ type restoreIn struct {
 	V2         string `json:"v2"`
 	MV2        string `json:"mv2,omitempty"`
 	RB2        string `json:"rb2,omitempty"`
+	// configured limits of the fan (0 = not configured): the restore must not depend on them
+	MaxPwm    int  `json:"max_pwm,omitempty"`
+	MinPwm    int  `json:"min_pwm,omitempty"`
+	StartPwm  int  `json:"start_pwm,omitempty"`
+	NeverStop bool `json:"never_stop,omitempty"`
 }
 type restoreObs struct {
 	Mode int      `json:"mode"`
@@ -183,17 +188,34 @@ func restoreNewEnv(ctx *Ctx) *restoreEnv {
 }
 
 func (e *restoreEnv) makeFan(in restoreIn) fans.Fan {
+	cfg := configuration.FanConfig{ID: "fan", NeverStop: in.NeverStop}
+	if in.MaxPwm > 0 {
+		v := in.MaxPwm
+		cfg.MaxPwm = &v
+	}
+	if in.MinPwm > 0 {
+		v := in.MinPwm
+		cfg.MinPwm = &v
+	}
+	if in.StartPwm > 0 {
+		v := in.StartPwm
+		cfg.StartPwm = &v
+	}
 	switch in.Backend {
 	case "hwmon":
-		return &fans.HwMonFan{Config: configuration.FanConfig{ID: "fan", HwMon: &configuration.HwMonFanConfig{
-			PwmPath: e.pwmPath, PwmEnablePath: e.enPath, RpmInputPath: filepath.Join(e.dir, "fan1_input")}}}
+		cfg.HwMon = &configuration.HwMonFanConfig{PwmPath: e.pwmPath, PwmEnablePath: e.enPath, RpmInputPath: filepath.Join(e.dir, "fan1_input")}
 	case "file":
-		return &fans.FileFan{Config: configuration.FanConfig{ID: "fan", File: &configuration.FileFanConfig{Path: e.pwmPath}}}
+		cfg.File = &configuration.FileFanConfig{Path: e.pwmPath}
 	default:
-		return &fans.CmdFan{Config: configuration.FanConfig{ID: "fan", Cmd: &configuration.CmdFanConfig{
+		cfg.Cmd = &configuration.CmdFanConfig{
 			SetPwm: &configuration.ExecConfig{Exec: e.script, Args: []string{e.dir, "%pwm%"}},
-		}}}
+		}
 	}
+	fan, err := fans.NewFan(cfg) // as initializeFans does: copies the configured limits into the fan
+	if err != nil {
+		panic(err)
+	}
+	return fan
 }
 
 func restoreRun(e *restoreEnv, in restoreIn) (restoreObs, string, []string) {
@@ -278,6 +300,10 @@ func restoreRun(e *restoreEnv, in restoreIn) (restoreObs, string, []string) {
 		if in.Unreadable {
 			tags = append(tags, "origpwm=unreadable")
 		}
+		tags = append(tags, fmt.Sprintf("maxpwm=%d", in.MaxPwm))
+		if in.MinPwm > 0 || in.NeverStop {
+			tags = append(tags, "minpwm+neverstop")
+		}
 		if len(obs.Ops) > 0 && strings.HasPrefix(obs.Ops[len(obs.Ops)-1], "OpWPwm 255") && len(obs.Ops) >= 2 {
 			tags = append(tags, "last-resort-taken")
 		} else {
@@ -342,6 +368,44 @@ func init() {
 											emit(restoreIn{Kind: "restore", Backend: backend, Exists: exists, OrigMode: om,
 												OrigPwm: opw.v, Unreadable: opw.unread, CurMode: cur[0], CurPwm: cur[1],
 												V1: v1, MV: mv, RB: rb, V2: v2}, "exhaustive")
+										}
+									}
+								}
+							}
+						}
+					}
+				}
+			}
+		}
+		// configured limits (maxPwm 200 / 255, with and without minPwm + startPwm + neverStop): the fan must still end
+		// handed back or at 255 - a limit that is applied inside Fan.SetPwm must not cap the last resort
+		for _, backend := range []string{"hwmon", "file", "cmd"} {
+			for _, maxPwm := range []int{200, 255} {
+				for _, lim := range []bool{false, true} {
+					for _, exists := range []bool{true, false} {
+						if backend != "hwmon" && exists {
+							continue
+						}
+						ms, mvs, rbs := modes, ws, []string{"ok", "fails"}
+						if !exists {
+							mvs, rbs = []string{"ok"}, []string{"ok"}
+						}
+						if backend != "hwmon" {
+							ms = []int{1}
+						}
+						for _, om := range ms {
+							for _, opv := range []int{77, 255} {
+								for _, v1 := range ws {
+									for _, mv := range mvs {
+										for _, rb := range rbs {
+											for _, v2 := range ws {
+												in := restoreIn{Kind: "restore", Backend: backend, Exists: exists, OrigMode: om, OrigPwm: opv,
+													CurMode: 1, CurPwm: 120, V1: v1, MV: mv, RB: rb, V2: v2, MaxPwm: maxPwm}
+												if lim {
+													in.MinPwm, in.StartPwm, in.NeverStop = 30, 45, true
+												}
+												emit(in, "limits")
+											}
 										}
 									}
 								}
